@@ -23,20 +23,34 @@ inductive Reach (P : Prog σ) : FnId → FnId → Prop
   | refl (f : FnId) : Reach P f f
   | step {f g h : FnId} : g ∈ (P f).calls → Reach P g h → Reach P f h
 
-/-- the body of `g` reads neither the global generator nor the hash order -/
+/-- the body of `g` reads neither the global generator nor the hash order nor the completion
+    order of pool workers -/
 def FnClean (P : Prog σ) (g : FnId) : Prop :=
-  (P g).reads .global = false ∧ (P g).reads .hash = false
+  (P g).reads .global = false ∧ (P g).reads .hash = false ∧ (P g).reads .sched = false
 
-/-- nothing reachable from `f` reads the global generator or the hash order -/
+/-- nothing reachable from `f` reads the global generator, the hash order or the schedule -/
 def Clean (P : Prog σ) (f : FnId) : Prop := ∀ g, Reach P f g → FnClean P g
 
+/-- a command reads only the seeded source -/
+def RdClean (c : Cmd σ) : Prop :=
+  c.reads .global = false ∧ c.reads .hash = false ∧ c.reads .sched = false
+
 def CmdClean (P : Prog σ) (c : Cmd σ) : Prop :=
-  c.reads .global = false ∧ c.reads .hash = false ∧ ∀ g ∈ c.calls, Clean P g
+  RdClean c ∧ ∀ g ∈ c.calls, Clean P g
 
 theorem cmdClean_body (P : Prog σ) (f : FnId) (h : Clean P f) : CmdClean P (P f) := by
-  refine ⟨(h f (Reach.refl f)).1, (h f (Reach.refl f)).2, ?_⟩
+  refine ⟨h f (Reach.refl f), ?_⟩
   intro g hg k hk
   exact h k (Reach.step hg hk)
+
+theorem rdClean_or {a b : Cmd σ}
+    (h : ∀ t, (a.reads t || b.reads t) = false → a.reads t = false ∧ b.reads t = false)
+    (hc : (a.reads .global || b.reads .global) = false ∧ (a.reads .hash || b.reads .hash) = false ∧
+      (a.reads .sched || b.reads .sched) = false) : RdClean a ∧ RdClean b :=
+  ⟨⟨(h _ hc.1).1, (h _ hc.2.1).1, (h _ hc.2.2).1⟩, ⟨(h _ hc.1).2, (h _ hc.2.1).2, (h _ hc.2.2).2⟩⟩
+
+theorem or_false_split (x y : Bool) (h : (x || y) = false) : x = false ∧ y = false := by
+  cases x <;> cases y <;> simp_all
 
 theorem optLowEq_bind {r1 r2 : Option (Env σ)} {k1 k2 : Env σ → Option (Env σ)}
     (h : OptLowEq r1 r2) (hk : ∀ a b, LowEq a b → OptLowEq (k1 a) (k2 b)) :
@@ -45,7 +59,7 @@ theorem optLowEq_bind {r1 r2 : Option (Env σ)} {k1 k2 : Env σ → Option (Env 
   exact hk _ _ h
 
 /-- core lemma: a clean command maps `LowEq` environments to `LowEq` results, whatever the
-    global generators and hash orders of the two environments are -/
+    global generators, hash orders and worker schedules of the two environments are -/
 theorem exec_lowEq (P : Prog σ) : ∀ (n : Nat) (c : Cmd σ) (e1 e2 : Env σ),
     CmdClean P c → LowEq e1 e2 → OptLowEq (exec P n c e1) (exec P n c e2) := by
   intro n
@@ -59,48 +73,36 @@ theorem exec_lowEq (P : Prog σ) : ∀ (n : Nat) (c : Cmd σ) (e1 e2 : Env σ),
       simp only [exec, OptLowEq, LowEq]
       exact ⟨by rw [hs], hg⟩
     | draw s k =>
-      have h1 := hc.1
-      have h2 := hc.2.1
+      have h1 := hc.1.1
+      have h2 := hc.1.2.1
+      have h3 := hc.1.2.2
       cases s with
       | seeded =>
         simp only [exec, Env.read, Gen.next, OptLowEq, LowEq]
         exact ⟨by rw [hs, hg], by rw [hg]⟩
       | global => simp [Cmd.reads] at h1
       | hash => simp [Cmd.reads] at h2
+      | sched => simp [Cmd.reads] at h3
     | seq a b =>
-      have hca : CmdClean P a := by
-        refine ⟨?_, ?_, ?_⟩
-        · have := hc.1; simp only [Cmd.reads, Bool.or_eq_false_iff] at this; exact this.1
-        · have := hc.2.1; simp only [Cmd.reads, Bool.or_eq_false_iff] at this; exact this.1
-        · intro g hgm; exact hc.2.2 g (by simp [Cmd.calls, hgm])
-      have hcb : CmdClean P b := by
-        refine ⟨?_, ?_, ?_⟩
-        · have := hc.1; simp only [Cmd.reads, Bool.or_eq_false_iff] at this; exact this.2
-        · have := hc.2.1; simp only [Cmd.reads, Bool.or_eq_false_iff] at this; exact this.2
-        · intro g hgm; exact hc.2.2 g (by simp [Cmd.calls, hgm])
+      have hr := rdClean_or (a := a) (b := b) (fun t h => or_false_split _ _ h)
+        (by simpa only [RdClean, Cmd.reads] using hc.1)
+      have hca : CmdClean P a := ⟨hr.1, fun g hgm => hc.2 g (by simp [Cmd.calls, hgm])⟩
+      have hcb : CmdClean P b := ⟨hr.2, fun g hgm => hc.2 g (by simp [Cmd.calls, hgm])⟩
       simp only [exec]
       exact optLowEq_bind (ih a e1 e2 hca ⟨hs, hg⟩) (fun x y hxy => ih b x y hcb hxy)
     | ite cnd a b =>
-      have hca : CmdClean P a := by
-        refine ⟨?_, ?_, ?_⟩
-        · have := hc.1; simp only [Cmd.reads, Bool.or_eq_false_iff] at this; exact this.1
-        · have := hc.2.1; simp only [Cmd.reads, Bool.or_eq_false_iff] at this; exact this.1
-        · intro g hgm; exact hc.2.2 g (by simp [Cmd.calls, hgm])
-      have hcb : CmdClean P b := by
-        refine ⟨?_, ?_, ?_⟩
-        · have := hc.1; simp only [Cmd.reads, Bool.or_eq_false_iff] at this; exact this.2
-        · have := hc.2.1; simp only [Cmd.reads, Bool.or_eq_false_iff] at this; exact this.2
-        · intro g hgm; exact hc.2.2 g (by simp [Cmd.calls, hgm])
+      have hr := rdClean_or (a := a) (b := b) (fun t h => or_false_split _ _ h)
+        (by simpa only [RdClean, Cmd.reads] using hc.1)
+      have hca : CmdClean P a := ⟨hr.1, fun g hgm => hc.2 g (by simp [Cmd.calls, hgm])⟩
+      have hcb : CmdClean P b := ⟨hr.2, fun g hgm => hc.2 g (by simp [Cmd.calls, hgm])⟩
       simp only [exec, hs]
       split
       · exact ih a e1 e2 hca ⟨hs, hg⟩
       · exact ih b e1 e2 hcb ⟨hs, hg⟩
     | loop cnd body =>
-      have hcb : CmdClean P body := by
-        refine ⟨?_, ?_, ?_⟩
-        · have := hc.1; simpa only [Cmd.reads] using this
-        · have := hc.2.1; simpa only [Cmd.reads] using this
-        · intro g hgm; exact hc.2.2 g (by simpa [Cmd.calls] using hgm)
+      have hcb : CmdClean P body :=
+        ⟨by simpa only [RdClean, Cmd.reads] using hc.1,
+         fun g hgm => hc.2 g (by simpa [Cmd.calls] using hgm)⟩
       simp only [exec, hs]
       split
       · exact optLowEq_bind (ih body e1 e2 hcb ⟨hs, hg⟩)
@@ -108,7 +110,7 @@ theorem exec_lowEq (P : Prog σ) : ∀ (n : Nat) (c : Cmd σ) (e1 e2 : Env σ),
       · simp only [OptLowEq, LowEq]; exact ⟨hs, hg⟩
     | call f =>
       simp only [exec]
-      have hf : Clean P f := hc.2.2 f (by simp [Cmd.calls])
+      have hf : Clean P f := hc.2 f (by simp [Cmd.calls])
       exact ih (P f) e1 e2 (cmdClean_body P f hf) ⟨hs, hg⟩
 
 /-- **Noninterference.**  If nothing reachable from `f` reads the global generator or the hash
@@ -118,7 +120,87 @@ theorem exec_lowEq (P : Prog σ) : ∀ (n : Nat) (c : Cmd σ) (e1 e2 : Env σ),
 theorem noninterference (P : Prog σ) (f : FnId) (h : Clean P f) (fuel : Nat) (e1 e2 : Env σ)
     (hl : LowEq e1 e2) : OptLowEq (exec P fuel (.call f) e1) (exec P fuel (.call f) e2) := by
   apply exec_lowEq P fuel (.call f) e1 e2 _ hl
-  refine ⟨rfl, rfl, ?_⟩
+  refine ⟨⟨rfl, rfl, rfl⟩, ?_⟩
+  intro g hg
+  simp only [Cmd.calls, List.mem_singleton] at hg
+  subst hg
+  exact h
+
+/-- what a clean command may not even touch: the global generator (its position), the hash
+    parameter and the schedule tape -/
+def Untouched (e e' : Env σ) : Prop := e'.global = e.global ∧ e'.hash = e.hash ∧ e'.sched = e.sched
+
+theorem exec_untouched (P : Prog σ) : ∀ (n : Nat) (c : Cmd σ) (e e' : Env σ),
+    CmdClean P c → exec P n c e = some e' → Untouched e e' := by
+  intro n
+  induction n with
+  | zero => intro c e e' _ h; simp [exec] at h
+  | succ n ih =>
+    intro c e e' hc h
+    cases c with
+    | pure f =>
+      simp only [exec, Option.some.injEq] at h
+      subst h; exact ⟨rfl, rfl, rfl⟩
+    | draw s k =>
+      have h1 := hc.1.1
+      have h2 := hc.1.2.1
+      have h3 := hc.1.2.2
+      cases s with
+      | seeded =>
+        simp only [exec, Env.read, Gen.next, Option.some.injEq] at h
+        subst h; exact ⟨rfl, rfl, rfl⟩
+      | global => simp [Cmd.reads] at h1
+      | hash => simp [Cmd.reads] at h2
+      | sched => simp [Cmd.reads] at h3
+    | seq a b =>
+      have hr := rdClean_or (a := a) (b := b) (fun t h => or_false_split _ _ h)
+        (by simpa only [RdClean, Cmd.reads] using hc.1)
+      have hca : CmdClean P a := ⟨hr.1, fun g hgm => hc.2 g (by simp [Cmd.calls, hgm])⟩
+      have hcb : CmdClean P b := ⟨hr.2, fun g hgm => hc.2 g (by simp [Cmd.calls, hgm])⟩
+      simp only [exec] at h
+      cases h1 : exec P n a e with
+      | none => simp [h1] at h
+      | some e1 =>
+        simp only [h1, Option.bind] at h
+        have u1 := ih a e e1 hca h1
+        have u2 := ih b e1 e' hcb h
+        exact ⟨u2.1.trans u1.1, u2.2.1.trans u1.2.1, u2.2.2.trans u1.2.2⟩
+    | ite cnd a b =>
+      have hr := rdClean_or (a := a) (b := b) (fun t h => or_false_split _ _ h)
+        (by simpa only [RdClean, Cmd.reads] using hc.1)
+      have hca : CmdClean P a := ⟨hr.1, fun g hgm => hc.2 g (by simp [Cmd.calls, hgm])⟩
+      have hcb : CmdClean P b := ⟨hr.2, fun g hgm => hc.2 g (by simp [Cmd.calls, hgm])⟩
+      simp only [exec] at h
+      split at h
+      · exact ih a e e' hca h
+      · exact ih b e e' hcb h
+    | loop cnd body =>
+      have hcb : CmdClean P body :=
+        ⟨by simpa only [RdClean, Cmd.reads] using hc.1,
+         fun g hgm => hc.2 g (by simpa [Cmd.calls] using hgm)⟩
+      simp only [exec] at h
+      split at h
+      · cases h1 : exec P n body e with
+        | none => simp [h1] at h
+        | some e1 =>
+          simp only [h1, Option.bind] at h
+          have u1 := ih body e e1 hcb h1
+          have u2 := ih (.loop cnd body) e1 e' hc h
+          exact ⟨u2.1.trans u1.1, u2.2.1.trans u1.2.1, u2.2.2.trans u1.2.2⟩
+      · simp only [Option.some.injEq] at h
+        subst h; exact ⟨rfl, rfl, rfl⟩
+    | call f =>
+      simp only [exec] at h
+      have hf : Clean P f := hc.2 f (by simp [Cmd.calls])
+      exact ih (P f) e e' (cmdClean_body P f hf) h
+
+/-- **A clean entry point leaves the process-global generator exactly where it was** (and the
+    schedule tape): the state of `random` / `numpy.random` after a seeded call equals the state
+    before it.  This is what the harness observes on every call (`random.getstate()`). -/
+theorem clean_leaves_global_untouched (P : Prog σ) (f : FnId) (h : Clean P f) (fuel : Nat)
+    (e e' : Env σ) (hex : exec P fuel (.call f) e = some e') : Untouched e e' := by
+  apply exec_untouched P fuel (.call f) e e' _ hex
+  refine ⟨⟨rfl, rfl, rfl⟩, ?_⟩
   intro g hg
   simp only [Cmd.calls, List.mem_singleton] at hg
   subst hg
@@ -130,17 +212,19 @@ theorem noninterference (P : Prog σ) (f : FnId) (h : Clean P f) (fuel : Nat) (e
 def Covers (T : List Facts) (P : Prog σ) : Prop :=
   ∀ f, ((P f).reads .global = true → (getFacts T f).rdGlobal = true) ∧
        ((P f).reads .hash = true → (getFacts T f).rdHash = true) ∧
+       ((P f).reads .sched = true → (getFacts T f).rdSched = true) ∧
        ∀ g ∈ (P f).calls, g ∈ (getFacts T f).calls
 
 theorem closedClean_row (T : List Facts) (R : FSet) (hc : closedClean T R = true) (f : FnId)
     (hf : inSet T R f = true) :
     (getFacts T f).rdGlobal = false ∧ (getFacts T f).rdHash = false ∧
+      (getFacts T f).rdSched = false ∧
       ∀ g ∈ (getFacts T f).calls, inSet T R g = true := by
   unfold inSet at hf
   simp only [Bool.and_eq_true, decide_eq_true_eq] at hf
   have hrow := (List.all_eq_true.1 hc) f (List.mem_range.2 hf.1)
   simp only [hf.2, Bool.not_true, Bool.false_or, Bool.and_eq_true, Bool.not_eq_true'] at hrow
-  exact ⟨hrow.1.1, hrow.1.2, fun g hg => (List.all_eq_true.1 hrow.2) g hg⟩
+  exact ⟨hrow.1.1.1, hrow.1.1.2, hrow.1.2, fun g hg => (List.all_eq_true.1 hrow.2) g hg⟩
 
 theorem closed_reach (T : List Facts) (P : Prog σ) (R : FSet)
     (hc : closedClean T R = true) (hcov : Covers T P) {f g : FnId} (hr : Reach P f g) :
@@ -150,7 +234,7 @@ theorem closed_reach (T : List Facts) (P : Prog σ) (R : FSet)
   | @step f' g' _ hcall _ ih =>
     intro hf
     apply ih
-    exact (closedClean_row T R hc f' hf).2.2 g' ((hcov f').2.2 g' hcall)
+    exact (closedClean_row T R hc f' hf).2.2.2 g' ((hcov f').2.2.2 g' hcall)
 
 theorem closed_sound (T : List Facts) (P : Prog σ) (R : FSet)
     (hc : closedClean T R = true) (hcov : Covers T P) (f : FnId) (hf : inSet T R f = true) :
@@ -158,13 +242,16 @@ theorem closed_sound (T : List Facts) (P : Prog σ) (R : FSet)
   intro g hr
   have hg := closed_reach T P R hc hcov hr hf
   have hrow := closedClean_row T R hc g hg
-  constructor
+  refine ⟨?_, ?_, ?_⟩
   · cases h : (P g).reads .global with
     | false => rfl
     | true => have := (hcov g).1 h; rw [hrow.1] at this; cases this
   · cases h : (P g).reads .hash with
     | false => rfl
     | true => have := (hcov g).2.1 h; rw [hrow.2.1] at this; cases this
+  · cases h : (P g).reads .sched with
+    | false => rfl
+    | true => have := (hcov g).2.2.1 h; rw [hrow.2.2.1] at this; cases this
 
 /-- soundness of the decision procedure that `decide` / the driver run on the extracted table -/
 theorem cleanFrom_sound (T : List Facts) (P : Prog σ) (hcov : Covers T P) (f : FnId)
